@@ -1,5 +1,5 @@
 /-
-Driver ops of the seeded-simulation area (C16): `seed_stochast`, `seed_param`.
+Driver ops of the seeded-simulation area (C16): `seed_stochast`, `seed_param`, `seed_setter`.
 
 `seed_stochast` replays the recorded variates of a real `solve_stochast` call through the model of
 Pygom/Seed.lean with the list-backed generator `listGen`: per `_jump` the parameter redraw (`redraw`), then per
@@ -102,8 +102,41 @@ def opSeedParam (j : Json) : Except String Json := do
                     ("missing", (r.1.runs.filter (fun o => !(table.any (fun e => e.1 == o.params)))).length),
                     ("cur", ratsToJson r.2.1), ("left", (r.2.2.length : Nat))])
 
+def pspecToJson (d : PSpec) : Json :=
+  Json.arr (d.map (fun e => Json.arr #[(e.1 : Nat), match e.2 with | .fixed v => ratToJson v | .random => Json.null])).toArray
+
+def optSpecToJson : Option PSpec → Json
+  | none => Json.null
+  | some d => pspecToJson d
+
+def assignOfJson (j : Json) : Except String (Assign × List Rat × Option (List Rat)) := do
+  let cur ← if (fld j "cur").isNull then pure none else do pure (some (← ratsOfJson (fld j "cur")))
+  if !(fld j "all").isNull then
+    pure (Assign.all (← ratsOfJson (fld j "all")), [], cur)
+  else
+    let d ← pspecOfJson (fld j "dict")
+    let vals ← if (fld j "vals").isNull then pure [] else ratsOfJson (fld j "vals")
+    pure (Assign.dict d, vals, cur)
+
+/-- the assignments of a history, one after the other: the RECORD is threaded by the model; the parameter values in force
+before an assignment are the observed ones when given (runs in between redraw them), the variates a dict with
+distributions consumes are the observed ones -/
+def replaySetter : List (Assign × List Rat × Option (List Rat)) → Obj → List Json
+  | [], _ => []
+  | (a, vals, cur) :: rest, o =>
+    let r := setParams listGen a ⟨cur.getD o.cur, o.record⟩ vals
+    Json.mkObj [("rec", optSpecToJson r.1.record), ("cur", ratsToJson r.1.cur), ("left", (r.2.length : Nat))] :: replaySetter rest r.1
+
+/-- `{"op":"seed_setter","rec":null|spec,"cur":[…],"ops":[{"dict":spec,"vals":[…]} | {"all":[…]}]}`: `Seed.setParams` along a history -/
+def opSeedSetter (j : Json) : Except String Json := do
+  let rec_ ← if (fld j "rec").isNull then pure none else do pure (some (← pspecOfJson (fld j "rec")))
+  let cur ← ratsOfJson (fld j "cur")
+  let ops ← listOfJson assignOfJson (fld j "ops")
+  pure (Json.mkObj [("steps", Json.arr (replaySetter ops ⟨cur, rec_⟩).toArray)])
+
 def handleSeed (op : String) (j : Json) : Option (Except String Json) :=
   match op with
+  | "seed_setter" => some (opSeedSetter j)
   | "seed_stochast" => some (opSeedStochast j)
   | "seed_param" => some (opSeedParam j)
   | _ => none
